@@ -1,3 +1,839 @@
-From Coq Require Import ZArith List Lia.
+(* C18_Proofs.v — invariants and proofs about the RangeLock model (C18_Model.v).
+   Part 1: the ordered-set invariant (for EVERY interleaving of atomic steps), byte
+   disjointness, retry-succeeds, unlock-erases, adjust-safe.
+   Part 2 (C18_Waiters.v): the waiter invariants. *)
+From Coq Require Import ZArith List Lia Bool Sorted Relations.
 From PV Require Import Base.U64 C18.C18_Model.
-Lemma placeholder : True. Proof. exact I. Qed.
+Import ListNotations.
+Local Open Scope Z_scope.
+
+(* ------------------------------------------------------------------ basics ---- *)
+Lemma MAX64_val : MAX64 = 18446744073709551615. Proof. reflexivity. Qed.
+
+Definition u64 (x : Z) : Prop := 0 <= x <= MAX64.
+
+Lemma r_end_ge o l : 0 <= l -> o <= r_end o l \/ r_end o l = MAX64.
+Proof. intros Hl. unfold r_end, sat_add. destruct (Z.ltb_spec MAX64 (o + l)); lia. Qed.
+
+Lemma r_end_ge' o l : u64 o -> 0 <= l -> o <= r_end o l.
+Proof. intros [Ho1 Ho2] Hl. unfold r_end, sat_add. destruct (Z.ltb_spec MAX64 (o + l)); lia. Qed.
+
+Lemma r_end_le_max o l : u64 o -> u64 l -> r_end o l <= MAX64.
+Proof. intros [? ?] [? ?]. unfold r_end, sat_add. destruct (Z.ltb_spec MAX64 (o + l)); lia. Qed.
+
+Lemma r_end_nosat o l : o + l <= MAX64 -> r_end o l = o + l.
+Proof. intros H. unfold r_end, sat_add. destruct (Z.ltb_spec MAX64 (o + l)); lia. Qed.
+
+Lemma r_end_le_true o l : 0 <= l -> r_end o l <= o + l.
+Proof. intros H. unfold r_end, sat_add. destruct (Z.ltb_spec MAX64 (o + l)); lia. Qed.
+
+(* well-formed entry: both fields are uint64_t values *)
+Definition wf_e (e : entry) : Prop := u64 (e_off e) /\ u64 (e_len e).
+(* the comparator order, pairwise: a.end() <= b.offset *)
+Definition before (a b : entry) : Prop := e_end a <= e_off b.
+Definition ordered (l : list entry) : Prop := StronglySorted before l.
+
+Lemma wf_off_le_end e : wf_e e -> e_off e <= e_end e.
+Proof. intros [H1 [H2 _]]. apply r_end_ge'; auto. Qed.
+
+Lemma e_end_add_waiter e t : e_end (add_waiter e t) = e_end e. Proof. reflexivity. Qed.
+Lemma e_end_clear_wait e : e_end (clear_wait e) = e_end e. Proof. reflexivity. Qed.
+
+(* ------------------------------------------------------- lower_bound (list) ---- *)
+Lemma lb_split_app o l : forall a b, lb_split o l = (a, b) -> l = a ++ b.
+Proof.
+  induction l as [|x tl IH]; intros a b H; cbn in H.
+  - inversion H; reflexivity.
+  - destruct (e_end x <=? o) eqn:E.
+    + destruct (lb_split o tl) as [a' b'] eqn:E2. inversion H; subst. cbn. f_equal. apply IH; reflexivity.
+    + inversion H; subst. reflexivity.
+Qed.
+
+Lemma lb_split_pre o l : forall a b, lb_split o l = (a, b) -> Forall (fun x => e_end x <= o) a.
+Proof.
+  induction l as [|x tl IH]; intros a b H; cbn in H.
+  - inversion H; constructor.
+  - destruct (e_end x <=? o) eqn:E.
+    + destruct (lb_split o tl) as [a' b'] eqn:E2. inversion H; subst. constructor.
+      * apply Z.leb_le; exact E.
+      * eapply IH; reflexivity.
+    + inversion H; subst. constructor.
+Qed.
+
+Lemma lb_split_post_head o l : forall a x b, lb_split o l = (a, x :: b) -> o < e_end x.
+Proof.
+  induction l as [|y tl IH]; intros a x b H; cbn in H.
+  - inversion H.
+  - destruct (e_end y <=? o) eqn:E.
+    + destruct (lb_split o tl) as [a' b'] eqn:E2. inversion H; subst. eapply IH; reflexivity.
+    + inversion H; subst. apply Z.leb_gt in E. exact E.
+Qed.
+
+(* StronglySorted toolkit *)
+Lemma ordered_app_inv l1 l2 : ordered (l1 ++ l2) ->
+  ordered l1 /\ ordered l2 /\ (forall a b, In a l1 -> In b l2 -> before a b).
+Proof.
+  induction l1 as [|x l1 IH]; cbn; intros H.
+  - repeat split; auto. constructor. intros a b [].
+  - inversion H as [|? ? Hs Hf]; subst. destruct (IH Hs) as (H1 & H2 & H3).
+    rewrite Forall_app in Hf. destruct Hf as [Hf1 Hf2].
+    repeat split; auto.
+    + constructor; auto.
+    + intros a b [<-|Ha] Hb.
+      * rewrite Forall_forall in Hf2; auto.
+      * auto.
+Qed.
+
+Lemma ordered_app l1 l2 : ordered l1 -> ordered l2 ->
+  (forall a b, In a l1 -> In b l2 -> before a b) -> ordered (l1 ++ l2).
+Proof.
+  induction l1 as [|x l1 IH]; cbn; intros H1 H2 H3; auto.
+  inversion H1 as [|? ? Hs Hf]; subst. constructor.
+  - apply IH; auto.
+  - rewrite Forall_app; split; auto. rewrite Forall_forall. intros b Hb. apply H3; auto.
+Qed.
+
+Lemma ordered_cons_inv x l : ordered (x :: l) -> ordered l /\ (forall b, In b l -> before x b).
+Proof. intros H. inversion H as [|? ? Hs Hf]; subst. split; auto. rewrite Forall_forall in Hf; auto. Qed.
+
+Lemma ordered_cons x l : ordered l -> (forall b, In b l -> before x b) -> ordered (x :: l).
+Proof. intros H1 H2. constructor; auto. rewrite Forall_forall; auto. Qed.
+
+(* replacing the middle element by one with the same position constraints *)
+Lemma ordered_replace a x y b :
+  ordered (a ++ x :: b) ->
+  (forall p, In p a -> before p y) -> (forall n, In n b -> before y n) ->
+  ordered (a ++ y :: b).
+Proof.
+  intros H Ha Hb. apply ordered_app_inv in H. destruct H as (H1 & H2 & H3).
+  apply ordered_cons_inv in H2. destruct H2 as [H2 H4].
+  apply ordered_app; auto.
+  - apply ordered_cons; auto.
+  - intros p q Hp [<-|Hq]; auto. apply H3; auto. right; auto.
+Qed.
+
+Lemma ordered_same_range a x y b :
+  ordered (a ++ x :: b) -> e_off y = e_off x -> e_len y = e_len x -> ordered (a ++ y :: b).
+Proof.
+  intros H Ho Hl.
+  assert (He : e_end y = e_end x) by (unfold e_end; rewrite Ho, Hl; reflexivity).
+  pose proof (ordered_app_inv _ _ H) as (H1 & H2 & H3).
+  apply ordered_cons_inv in H2. destruct H2 as [H2 H4].
+  eapply ordered_replace; eauto.
+  - intros p Hp. unfold before. rewrite Ho. apply H3; auto. left; auto.
+  - intros n Hn. unfold before. rewrite He. apply H4; auto.
+Qed.
+
+Lemma ordered_remove a x b : ordered (a ++ x :: b) -> ordered (a ++ b).
+Proof.
+  intros H. apply ordered_app_inv in H. destruct H as (H1 & H2 & H3).
+  apply ordered_cons_inv in H2. destruct H2 as [H2 _].
+  apply ordered_app; auto. intros p q Hp Hq. apply H3; auto. right; auto.
+Qed.
+
+(* ends are monotone along an ordered well-formed list: this is what makes the comparator's
+   "x < key" predicate a partition of the in-order sequence *)
+Lemma ordered_end_mono l : ordered l -> Forall wf_e l ->
+  forall a b l1 l2, l = l1 ++ a :: l2 -> In b l2 -> e_end a <= e_end b.
+Proof.
+  intros Ho Hw a b l1 l2 -> Hb.
+  apply ordered_app_inv in Ho. destruct Ho as (_ & Ho & _).
+  apply ordered_cons_inv in Ho. destruct Ho as [_ Ho].
+  specialize (Ho b Hb). unfold before in Ho.
+  assert (wf_e b). { rewrite Forall_forall in Hw. apply Hw. apply in_or_app. right; right; auto. }
+  pose proof (wf_off_le_end b H). lia.
+Qed.
+
+(* on an ordered list the split is exact: everything after the lower bound is not < key *)
+Lemma lb_split_post o l a b : ordered l -> Forall wf_e l -> lb_split o l = (a, b) ->
+  Forall (fun x => o < e_end x) b.
+Proof.
+  intros Ho Hw H. destruct b as [|x b]; [constructor|].
+  pose proof (lb_split_post_head _ _ _ _ _ H) as Hx.
+  pose proof (lb_split_app _ _ _ _ H) as Hl.
+  constructor; auto. rewrite Forall_forall. intros y Hy.
+  pose proof (ordered_end_mono l Ho Hw x y a b Hl Hy). lia.
+Qed.
+
+(* ------------------------------------------------------------- invariant ---- *)
+Definition ids_below (n : Z) (l : list entry) : Prop := Forall (fun e => e_id e < n) l.
+Record inv (s : state) : Prop := mkInv {
+  inv_ord : ordered (idx s);
+  inv_wf  : Forall wf_e (idx s);
+  inv_ids : ids_below (nid s) (idx s) /\ NoDup (map e_id (idx s))
+}.
+
+(* well-formed op: every numeric argument is a uint64_t value *)
+Definition op_u64 (c : op) : Prop :=
+  match c with
+  | OTry _ _ o l | OUnlock _ o l | OAdjust _ _ o l => u64 o /\ u64 l
+  | OUnlockH _ _ => True
+  end.
+(* guard excluding the class of known finding F4: no requested range reaches past 2^64-1 *)
+Definition op_nosat (c : op) : Prop :=
+  match c with
+  | OTry _ _ o l | OAdjust _ _ o l => o + l <= MAX64
+  | _ => True
+  end.
+(* guard excluding the class of known finding F3: no empty range is requested *)
+Definition op_nonempty (c : op) : Prop :=
+  match c with
+  | OTry _ _ o l | OAdjust _ _ o l => 0 < l
+  | _ => True
+  end.
+
+Lemma find_id_split h l : forall a x b, find_id h l = Some (a, x, b) -> l = a ++ x :: b /\ e_id x = h.
+Proof.
+  induction l as [|y tl IH]; intros a x b H; cbn in H; [discriminate|].
+  destruct (e_id y =? h) eqn:E.
+  - inversion H; subst. split; auto. apply Z.eqb_eq; auto.
+  - destruct (find_id h tl) as [[[a' y'] b']|] eqn:E2; [|discriminate].
+    inversion H; subst. destruct (IH _ _ _ eq_refl) as [-> ?]. split; auto.
+Qed.
+
+Lemma find_id_none h l : find_id h l = None -> ~ In h (map e_id l).
+Proof.
+  induction l as [|y tl IH]; cbn; intros H; [tauto|].
+  destruct (e_id y =? h) eqn:E; [discriminate|].
+  destruct (find_id h tl) as [[[a' y'] b']|] eqn:E2; [discriminate|].
+  intros [H1|H1]; [apply Z.eqb_neq in E; auto | apply IH; auto].
+Qed.
+
+Lemma Forall_app_inv {A} (P : A -> Prop) l1 l2 : Forall P (l1 ++ l2) -> Forall P l1 /\ Forall P l2.
+Proof. apply Forall_app. Qed.
+
+Lemma ids_below_mono n m l : n <= m -> ids_below n l -> ids_below m l.
+Proof. intros H. unfold ids_below. apply Forall_impl. intros; lia. Qed.
+
+Lemma NoDup_map_remove (l1 : list entry) x l2 : NoDup (map e_id (l1 ++ x :: l2)) -> NoDup (map e_id (l1 ++ l2)).
+Proof. rewrite !map_app. cbn. apply NoDup_remove_1. Qed.
+
+Lemma NoDup_map_replace (l1 : list entry) x y l2 : e_id y = e_id x ->
+  NoDup (map e_id (l1 ++ x :: l2)) -> NoDup (map e_id (l1 ++ y :: l2)).
+Proof. intros H. rewrite !map_app. cbn. rewrite H. auto. Qed.
+
+(* ---------------------------------------------------------------- attempt ---- *)
+Lemma last_pre_in (pre : list entry) x r : rev pre = x :: r -> In x pre.
+Proof. intros H. apply in_rev. rewrite H. left; auto. Qed.
+
+Lemma attempt_inv s t k o l s' evs : inv s -> u64 o -> u64 l ->
+  attempt s t k o l = (s', evs) -> inv s'.
+Proof.
+  intros [Ho Hw [Hi Hn]] Uo Ul H. unfold attempt in H.
+  destruct (lb_split o (idx s)) as [pre post] eqn:E.
+  pose proof (lb_split_app _ _ _ _ E) as Hl.
+  pose proof (lb_split_pre _ _ _ _ E) as Hpre.
+  assert (Hins : forall (Hpost : forall y, In y post -> r_end o l <= e_off y),
+     inv (mkSt (pre ++ mkE o l (nid s) [] :: post) (nid s + 1) (pend s) (ready s))).
+  { intros Hpost. rewrite Hl in Ho, Hw, Hi, Hn.
+    apply ordered_app_inv in Ho. destruct Ho as (Ho1 & Ho2 & Ho3).
+    apply Forall_app in Hw. destruct Hw as [Hw1 Hw2].
+    split; cbn.
+    - apply ordered_app; auto.
+      + apply ordered_cons; auto.
+      + intros p q Hp [<-|Hq]; auto. unfold before; cbn.
+        rewrite Forall_forall in Hpre. apply Hpre; auto.
+    - apply Forall_app; split; auto. constructor; auto. split; auto.
+    - split.
+      + apply Forall_app in Hi. destruct Hi as [Hi1 Hi2]. apply Forall_app; split.
+        * eapply ids_below_mono; [|exact Hi1]. lia.
+        * constructor; [cbn; lia|]. eapply ids_below_mono; [|exact Hi2]. lia.
+      + rewrite map_app in *. cbn. apply NoDup_Add with (a := nid s) (l := map e_id pre ++ map e_id post).
+        * apply Add_app.
+        * split; auto. intros Hin. rewrite <- map_app in Hin. apply in_map_iff in Hin.
+          destruct Hin as (y & Hy1 & Hy2).
+          unfold ids_below in Hi. rewrite Forall_forall in Hi. specialize (Hi y Hy2). lia. }
+  destruct post as [|x post'].
+  - destruct (dup_empty pre o l).
+    + inversion H; subst. split; auto.
+    + inversion H; subst. apply Hins. intros y [].
+  - destruct (e_off x <? r_end o l) eqn:E2.
+    + inversion H; subst. rewrite Hl in Ho, Hw, Hi, Hn. split; cbn.
+      * eapply ordered_same_range; eauto.
+      * apply Forall_app in Hw. destruct Hw as [Hw1 Hw2]. apply Forall_app; split; auto.
+        inversion Hw2; subst. constructor; auto.
+      * split.
+        -- unfold ids_below in *. apply Forall_app in Hi. destruct Hi as [Hi1 Hi2]. apply Forall_app; split; auto.
+           inversion Hi2; subst. constructor; auto.
+        -- eapply NoDup_map_replace; [|exact Hn]. reflexivity.
+    + destruct (dup_empty pre o l).
+      * inversion H; subst. split; auto.
+      * inversion H; subst. apply Hins. apply Z.ltb_ge in E2.
+        intros y [<-|Hy]; auto.
+        rewrite Hl in Ho, Hw. apply ordered_app_inv in Ho. destruct Ho as (_ & Ho2 & _).
+        apply ordered_cons_inv in Ho2. destruct Ho2 as [_ Ho2]. specialize (Ho2 y Hy). unfold before in Ho2.
+        apply Forall_app in Hw. destruct Hw as [_ Hw2]. inversion Hw2; subst.
+        pose proof (wf_off_le_end x H2). lia.
+Qed.
+
+(* ----------------------------------------------------------------- unlock ---- *)
+Lemma unlock_loop_incl o l post : forall keep wk, unlock_loop o l post = (keep, wk) ->
+  forall y, In y keep -> In y post.
+Proof.
+  induction post as [|z tl IH2]; intros k' w' E b Hb; cbn in E.
+  - inversion E; subst. destruct Hb.
+  - destruct (e_off z <? r_end o l).
+    + destruct (unlock_loop o l tl) as [k2 w2] eqn:E3.
+      destruct (r_contains o l (e_off z) (e_len z)); inversion E; subst.
+      * right. eapply IH2; eauto.
+      * destruct Hb as [<-|Hb]; [left; auto | right; eapply IH2; eauto].
+    + inversion E; subst. auto.
+Qed.
+
+Lemma unlock_loop_ordered o l post keep wk : unlock_loop o l post = (keep, wk) -> ordered post -> ordered keep.
+Proof.
+  revert keep wk. induction post as [|x tl IH]; intros keep wk H Ho; cbn in H.
+  - inversion H; constructor.
+  - destruct (e_off x <? r_end o l).
+    + destruct (unlock_loop o l tl) as [k' w'] eqn:E.
+      apply ordered_cons_inv in Ho. destruct Ho as [Ho1 Ho2].
+      destruct (r_contains o l (e_off x) (e_len x)); inversion H; subst.
+      * eapply IH; eauto.
+      * apply ordered_cons; [eapply IH; eauto|].
+        intros b Hb. apply Ho2. eapply unlock_loop_incl; eauto.
+    + inversion H; subst. auto.
+Qed.
+
+Lemma NoDup_map_incl_sub (keep post : list entry) :
+  (* keep is a subsequence of post *)
+  forall o l wk, unlock_loop o l post = (keep, wk) -> NoDup (map e_id post) -> NoDup (map e_id keep).
+Proof.
+  revert keep. induction post as [|x tl IH]; intros keep o l wk H Hn; cbn in H.
+  - inversion H; constructor.
+  - destruct (e_off x <? r_end o l).
+    + destruct (unlock_loop o l tl) as [k' w'] eqn:E.
+      cbn in Hn. inversion Hn as [|? ? Hx Hn']; subst.
+      destruct (r_contains o l (e_off x) (e_len x)); inversion H; subst.
+      * eapply IH; eauto.
+      * cbn. constructor; [|eapply IH; eauto].
+        intros Hin. apply Hx. apply in_map_iff in Hin. destruct Hin as (y & Hy1 & Hy2).
+        apply in_map_iff. exists y; split; auto. eapply unlock_loop_incl; eauto.
+    + inversion H; subst. auto.
+Qed.
+
+Lemma NoDup_app_r {A} (l1 l2 : list A) : NoDup (l1 ++ l2) -> NoDup l2.
+Proof. induction l1; cbn; auto. intros H. inversion H; auto. Qed.
+
+Lemma NoDup_app_sub {A} (l1 l2 k : list A) : NoDup (l1 ++ l2) -> NoDup k -> (forall z, In z k -> In z l2) -> NoDup (l1 ++ k).
+Proof.
+  induction l1 as [|p l1 IH]; cbn; intros Hn Hk Hs; auto.
+  inversion Hn as [|? ? Hp Hn']; subst. constructor; auto.
+  intros Hin. apply Hp. apply in_app_or in Hin. apply in_or_app. destruct Hin; auto.
+Qed.
+
+Lemma unlock_range_inv s t o l s' evs : inv s -> unlock_range s t o l = (s', evs) -> inv s'.
+Proof.
+  intros [Ho Hw [Hi Hn]] H. unfold unlock_range in H.
+  destruct (lb_split o (idx s)) as [pre post] eqn:E.
+  destruct (unlock_loop o l post) as [keep wk] eqn:E2.
+  inversion H; subst; clear H.
+  pose proof (lb_split_app _ _ _ _ E) as Hl. rewrite Hl in Ho, Hw, Hi, Hn.
+  pose proof (unlock_loop_incl _ _ _ _ _ E2) as Hsub.
+  apply ordered_app_inv in Ho. destruct Ho as (Ho1 & Ho2 & Ho3).
+  apply Forall_app in Hw. destruct Hw as [Hw1 Hw2].
+  apply Forall_app in Hi. destruct Hi as [Hi1 Hi2].
+  split; cbn.
+  - apply ordered_app; auto. eapply unlock_loop_ordered; eauto.
+  - apply Forall_app; split; auto. rewrite Forall_forall in *. auto.
+  - split.
+    + apply Forall_app; split; auto. unfold ids_below in *. rewrite Forall_forall in *. auto.
+    + rewrite map_app in *. pose proof (NoDup_app_r _ _ Hn) as Hn2.
+      pose proof (NoDup_map_incl_sub _ _ _ _ _ E2 Hn2) as Hk.
+      eapply NoDup_app_sub; eauto.
+      intros z Hin. apply in_map_iff in Hin. destruct Hin as (y & Hy1 & Hy2). apply in_map_iff. exists y; auto.
+Qed.
+
+Lemma unlock_handle_inv s t h s' evs : inv s -> unlock_handle s t h = (s', evs) -> inv s'.
+Proof.
+  intros [Ho Hw [Hi Hn]] H. unfold unlock_handle in H.
+  destruct (find_id h (idx s)) as [[[a x] b]|] eqn:E.
+  - inversion H; subst; clear H. destruct (find_id_split _ _ _ _ _ E) as [Hl _].
+    rewrite Hl in Ho, Hw, Hi, Hn. split; cbn.
+    + eapply ordered_remove; eauto.
+    + apply Forall_app in Hw. destruct Hw as [Hw1 Hw2]. inversion Hw2; subst. apply Forall_app; split; auto.
+    + split.
+      * unfold ids_below in *. apply Forall_app in Hi. destruct Hi as [Hi1 Hi2]. inversion Hi2; subst. apply Forall_app; split; auto.
+      * eapply NoDup_map_remove; eauto.
+  - inversion H; subst. split; auto.
+Qed.
+
+(* ----------------------------------------------------------------- adjust ---- *)
+Lemma prev_end_bound a : forall p, In p a -> ordered a -> Forall wf_e a -> e_end p <= prev_end a.
+Proof.
+  intros p Hp Ho Hw. unfold prev_end. destruct (rev a) as [|q r] eqn:E.
+  - apply in_rev in Hp. rewrite E in Hp. destruct Hp.
+  - assert (Ha : a = rev r ++ [q]). { rewrite <- (rev_involutive a), E. reflexivity. }
+    rewrite Ha in Hp. apply in_app_or in Hp. destruct Hp as [Hp|[<-|[]]]; [|lia].
+    apply in_split in Hp. destruct Hp as (l1 & l2 & Hp).
+    eapply (ordered_end_mono a Ho Hw p q l1 (l2 ++ [q])).
+    + rewrite Ha, Hp. rewrite <- app_assoc. reflexivity.
+    + apply in_or_app. right; left; auto.
+Qed.
+
+Lemma adjust_range_gen_inv nf s t h o l s' evs : inv s -> u64 o -> u64 l ->
+  adjust_range_gen nf s t h o l = (s', evs) -> inv s'.
+Proof.
+  intros Hinv Uo Ul H. pose proof Hinv as [Ho Hw [Hi Hn]]. unfold adjust_range_gen in H.
+  destruct h as [h|]; [|inversion H; subst; auto].
+  destruct (find_id h (idx s)) as [[[a x] b]|] eqn:E; [|inversion H; subst; auto].
+  destruct (find_id_split _ _ _ _ _ E) as [Hl _].
+  match type of H with (if ?c then _ else _) = _ => destruct c eqn:Ec end; [inversion H; subst; auto|].
+  apply orb_false_iff in Ec. destruct Ec as [Ec1 Ec2].
+  apply andb_false_iff in Ec1. apply andb_false_iff in Ec2.
+  rewrite Hl in Ho, Hw, Hi, Hn.
+  pose proof (ordered_app_inv _ _ Ho) as (Ho1 & Ho2 & Ho3).
+  pose proof (ordered_cons_inv _ _ Ho2) as [Ho4 Ho5].
+  pose proof (proj1 (Forall_app _ _ _) Hw) as [Hw1 Hw2].
+  inversion Hw2 as [|? ? Hwx Hwb]; subst.
+  assert (Hr1 : o <= r_end o l) by (apply r_end_ge'; destruct Ul; auto).
+  assert (Hxoe := wf_off_le_end x Hwx).
+  assert (Hnew : forall y, e_off y = o -> e_len y = l -> e_id y = e_id x ->
+            inv (mkSt (a ++ y :: b) (nid s) (pend s) (if nf then wake_all (ready s) x else ready s))).
+  { intros y Hyo Hyl Hyi. assert (Hye : e_end y = r_end o l) by (unfold e_end; rewrite Hyo, Hyl; auto).
+    split; cbn.
+    - eapply ordered_replace; eauto.
+      + intros p Hp. unfold before. rewrite Hyo.
+        pose proof (Ho3 p x Hp (or_introl eq_refl)) as Hpx. unfold before in Hpx.
+        pose proof (prev_end_bound a p Hp Ho1 Hw1) as Hpe.
+        destruct Ec1 as [Ec1|Ec1]; apply Z.ltb_ge in Ec1; lia.
+      + intros n Hn'. unfold before. rewrite Hye.
+        pose proof (Ho5 n Hn') as Hxn. unfold before in Hxn.
+        destruct Ec2 as [Ec2|Ec2]; apply Z.ltb_ge in Ec2; [lia|].
+        destruct b as [|n0 b']; [destruct Hn'|]. cbn in Ec2.
+        destruct Hn' as [<-|Hn']; [lia|].
+        apply ordered_cons_inv in Ho4. destruct Ho4 as [_ Ho4]. specialize (Ho4 n Hn'). unfold before in Ho4.
+        inversion Hwb as [|? ? Hwn0 ?]; subst. pose proof (wf_off_le_end n0 Hwn0). lia.
+    - apply Forall_app; split; auto. constructor; auto. split; [rewrite Hyo|rewrite Hyl]; auto.
+    - split.
+      + unfold ids_below in *. apply Forall_app in Hi. destruct Hi as [Hi1 Hi2]. inversion Hi2; subst.
+        apply Forall_app; split; auto. constructor; auto. rewrite Hyi; auto.
+      + eapply NoDup_map_replace; eauto. }
+  destruct nf; inversion H; subst; apply Hnew; reflexivity.
+Qed.
+
+(* ------------------------------------------------------ steps, reachability ---- *)
+Lemma exec_op_inv s c s' evs : inv s -> op_u64 c -> exec_op s c = (s', evs) -> inv s'.
+Proof.
+  intros Hi Hc H. unfold exec_op in H. destruct (is_pending s (op_tid c)); [inversion H; subst; auto|].
+  destruct c as [t k o l|t o l|t h|t h o l]; cbn in Hc, H.
+  - destruct Hc. apply (attempt_inv s t k o l s' evs); auto.
+  - eapply unlock_range_inv; eauto.
+  - eapply unlock_handle_inv; eauto.
+  - destruct Hc. apply (adjust_range_gen_inv true s t h o l s' evs); auto.
+Qed.
+
+(* the requests of parked threads are uint64 too (they come from ops) *)
+Definition pend_u64 (s : state) : Prop := Forall (fun tp => u64 (p_off (snd tp)) /\ u64 (p_len (snd tp))) (pend s).
+
+Definition set_ready (s : state) (r : list Z) : state := mkSt (idx s) (nid s) (pend s) r.
+
+(* One atomic step of the system, by any thread:
+   - some thread calls a method (and runs it until it returns or parks), or
+   - some notified thread (ANY element of the ready set, not only the first) resumes. *)
+Inductive step (G : op -> Prop) : state -> state -> Prop :=
+| step_op s c s' evs : G c -> exec_op s c = (s', evs) -> step G s s'
+| step_wake s t r1 r2 s' evs : ready s = r1 ++ t :: r2 ->
+    wake (set_ready s (r1 ++ r2)) t = (s', evs) -> step G s s'.
+
+Inductive reachable (G : op -> Prop) : state -> Prop :=
+| reach_init : reachable G init_state
+| reach_step s s' : reachable G s -> step G s s' -> reachable G s'.
+
+Lemma lookup_pend_in t l p : lookup_pend t l = Some p -> In (t, p) l.
+Proof.
+  induction l as [|[u q] tl IH]; cbn; [discriminate|].
+  destruct (u =? t) eqn:E; intros H.
+  - inversion H; subst. apply Z.eqb_eq in E; subst. left; auto.
+  - right; auto.
+Qed.
+
+Lemma remove_pend_incl t l : forall x, In x (remove_pend t l) -> In x l.
+Proof.
+  induction l as [|[u q] tl IH]; cbn; auto.
+  destruct (u =? t); intros x Hx; auto. destruct Hx; auto.
+Qed.
+
+Lemma attempt_pend_u64 s t k o l s' evs : pend_u64 s -> u64 o -> u64 l -> attempt s t k o l = (s', evs) -> pend_u64 s'.
+Proof.
+  intros Hp Uo Ul H. unfold attempt in H. destruct (lb_split o (idx s)) as [pre post].
+  assert (Hpark : pend_u64 (mkSt (idx s) (nid s) (pend s ++ [(t, mkP k o l 0 0)]) (ready s))).
+  { unfold pend_u64 in *; cbn. apply Forall_app; split; auto. }
+  unfold pend_u64 in *.
+  destruct post as [|x post'].
+  - destruct (dup_empty pre o l); inversion H; subst; auto.
+  - destruct (e_off x <? r_end o l).
+    + inversion H; subst; cbn. apply Forall_app; split; auto.
+    + destruct (dup_empty pre o l); inversion H; subst; auto.
+Qed.
+
+Lemma exec_op_pend_u64 s c s' evs : pend_u64 s -> op_u64 c -> exec_op s c = (s', evs) -> pend_u64 s'.
+Proof.
+  intros Hp Hc H. unfold exec_op in H. destruct (is_pending s (op_tid c)); [inversion H; subst; auto|].
+  destruct c as [t k o l|t o l|t h|t h o l]; cbn in Hc, H.
+  - destruct Hc. apply (attempt_pend_u64 s t k o l s' evs); auto.
+  - unfold unlock_range in H. destruct (lb_split o (idx s)). destruct (unlock_loop o l l1). inversion H; subst; auto.
+  - unfold unlock_handle in H. destruct (find_id h (idx s)) as [[[a x] b]|]; inversion H; subst; auto.
+  - unfold adjust_range, adjust_range_gen in H. destruct h as [h|]; [|inversion H; subst; auto].
+    destruct (find_id h (idx s)) as [[[a x] b]|]; [|inversion H; subst; auto].
+    match type of H with (if ?c then _ else _) = _ => destruct c end; inversion H; subst; auto.
+Qed.
+
+Lemma wake_inv s t s' evs : inv s -> pend_u64 s -> wake s t = (s', evs) -> inv s' /\ pend_u64 s'.
+Proof.
+  intros Hi Hp H. unfold wake in H. destruct (lookup_pend t (pend s)) as [p|] eqn:E; [|inversion H; subst; auto].
+  assert (Hi' : inv (mkSt (idx s) (nid s) (remove_pend t (pend s)) (ready s))) by (destruct Hi; split; auto).
+  assert (Hp' : pend_u64 (mkSt (idx s) (nid s) (remove_pend t (pend s)) (ready s))).
+  { unfold pend_u64 in *; cbn. rewrite Forall_forall in *. intros x Hx. apply Hp. eapply remove_pend_incl; eauto. }
+  destruct (p_kind p); try (inversion H; subst; auto).
+  apply lookup_pend_in in E. unfold pend_u64 in Hp. rewrite Forall_forall in Hp. specialize (Hp _ E). cbn in Hp. destruct Hp.
+  split; [eapply attempt_inv with (o := p_off p) (l := p_len p) | eapply attempt_pend_u64 with (o := p_off p) (l := p_len p)]; eauto.
+Qed.
+
+Definition G_u64 (c : op) : Prop := op_u64 c.
+
+Lemma reachable_inv (G : op -> Prop) s : (forall c, G c -> op_u64 c) -> reachable G s -> inv s /\ pend_u64 s.
+Proof.
+  intros HG H. induction H as [|s s' Hr [IH1 IH2] Hs].
+  - split; [split; cbn; try constructor; try constructor | constructor].
+  - destruct Hs as [s c s' evs Hc He | s t r1 r2 s' evs Hr' Hw].
+    + split; [eapply exec_op_inv | eapply exec_op_pend_u64]; eauto.
+    + eapply wake_inv; [| |exact Hw]; destruct IH1; [split|]; auto.
+Qed.
+
+
+(* ------------------------------------------- predicates on requested ranges ---- *)
+(* If every range ever requested satisfies P, every held range and every parked request does. *)
+Section RangePred.
+  Variable P : Z -> Z -> Prop.
+  Definition op_P (c : op) : Prop :=
+    match c with OTry _ _ o l | OAdjust _ _ o l => P o l | _ => True end.
+  Definition all_P (s : state) : Prop :=
+    Forall (fun e => P (e_off e) (e_len e)) (idx s) /\
+    Forall (fun tp => P (p_off (snd tp)) (p_len (snd tp))) (pend s).
+
+  Lemma attempt_P s t k o l s' evs : all_P s -> P o l -> attempt s t k o l = (s', evs) -> all_P s'.
+  Proof.
+    intros [H1 H2] HP H. unfold attempt in H. destruct (lb_split o (idx s)) as [pre post] eqn:E.
+    pose proof (lb_split_app _ _ _ _ E) as Hl. rewrite Hl in H1. apply Forall_app in H1. destruct H1 as [H1a H1b].
+    assert (Hins : all_P (mkSt (pre ++ mkE o l (nid s) [] :: post) (nid s + 1) (pend s) (ready s))).
+    { split; cbn; auto. apply Forall_app; split; auto. }
+    assert (Hsame : all_P s). { split; auto. rewrite Hl. apply Forall_app; split; auto. }
+    destruct post as [|x post'].
+    - destruct (dup_empty pre o l); inversion H; subst; auto.
+    - destruct (e_off x <? r_end o l).
+      + inversion H; subst. inversion H1b; subst. split; cbn.
+        * apply Forall_app; split; auto.
+        * apply Forall_app; split; auto.
+      + destruct (dup_empty pre o l); inversion H; subst; auto.
+  Qed.
+
+  Lemma exec_op_P s c s' evs : all_P s -> op_P c -> exec_op s c = (s', evs) -> all_P s'.
+  Proof.
+    intros HP Hc H. unfold exec_op in H. destruct (is_pending s (op_tid c)); [inversion H; subst; auto|].
+    destruct c as [t k o l|t o l|t h|t h o l]; cbn in Hc, H.
+    - eapply attempt_P; eauto.
+    - destruct HP as [H1 H2]. unfold unlock_range in H.
+      destruct (lb_split o (idx s)) as [pre post] eqn:E. destruct (unlock_loop o l post) as [keep wk] eqn:E2.
+      inversion H; subst; clear H. split; cbn; auto.
+      pose proof (lb_split_app _ _ _ _ E) as Hl. rewrite Hl in H1. apply Forall_app in H1. destruct H1 as [H1a H1b].
+      apply Forall_app; split; auto. rewrite Forall_forall in *. intros y Hy. apply H1b. eapply unlock_loop_incl; eauto.
+    - destruct HP as [H1 H2]. unfold unlock_handle in H.
+      destruct (find_id h (idx s)) as [[[a x] b]|] eqn:E; inversion H; subst; clear H; [|split; auto].
+      destruct (find_id_split _ _ _ _ _ E) as [Hl _]. rewrite Hl in H1. apply Forall_app in H1. destruct H1 as [H1a H1b].
+      inversion H1b; subst. split; cbn; auto. apply Forall_app; split; auto.
+    - destruct HP as [H1 H2]. unfold adjust_range, adjust_range_gen in H. destruct h as [h|]; [|inversion H; subst; split; auto].
+      destruct (find_id h (idx s)) as [[[a x] b]|] eqn:E; [|inversion H; subst; split; auto].
+      destruct (find_id_split _ _ _ _ _ E) as [Hl _].
+      match type of H with (if ?c then _ else _) = _ => destruct c end; inversion H; subst; clear H; [split; auto|].
+      rewrite Hl in H1. apply Forall_app in H1. destruct H1 as [H1a H1b]. inversion H1b; subst.
+      split; cbn; auto. apply Forall_app; split; auto.
+  Qed.
+
+  Lemma wake_P s t s' evs : all_P s -> wake s t = (s', evs) -> all_P s'.
+  Proof.
+    intros [H1 H2] H. unfold wake in H. destruct (lookup_pend t (pend s)) as [p|] eqn:E; [|inversion H; subst; split; auto].
+    assert (HP' : all_P (mkSt (idx s) (nid s) (remove_pend t (pend s)) (ready s))).
+    { split; cbn; auto. rewrite Forall_forall in *. intros x Hx. apply H2. eapply remove_pend_incl; eauto. }
+    destruct (p_kind p); try (inversion H; subst; auto).
+    apply lookup_pend_in in E. rewrite Forall_forall in H2. specialize (H2 _ E). cbn in H2.
+    eapply attempt_P; eauto.
+  Qed.
+
+  Lemma reachable_P (G : op -> Prop) s : (forall c, G c -> op_P c) -> reachable G s -> all_P s.
+  Proof.
+    intros HG H. induction H as [|s s' Hr IH Hs].
+    - split; constructor.
+    - destruct Hs as [s c s' evs Hc He | s t r1 r2 s' evs Hr' Hw].
+      + eapply exec_op_P; eauto.
+      + eapply wake_P; [|exact Hw]. destruct IH; split; auto.
+  Qed.
+End RangePred.
+
+(* ----------------------------------------------------------- byte disjointness ---- *)
+(* byte b belongs to the range held by e: the TRUE (unsaturated) range [offset, offset+length) *)
+Definition byte_in (b : Z) (e : entry) : Prop := e_off e <= b < e_off e + e_len e.
+Definition disjoint_held (l : list entry) : Prop :=
+  forall i j a b x, i <> j -> nth_error l i = Some a -> nth_error l j = Some b ->
+                    byte_in x a -> byte_in x b -> False.
+Definition nosat (o l : Z) : Prop := o + l <= MAX64.
+
+Lemma ordered_nth l : ordered l -> forall i j a b, (i < j)%nat ->
+  nth_error l i = Some a -> nth_error l j = Some b -> before a b.
+Proof.
+  induction l as [|x l IH]; intros Ho i j a b Hij Ha Hb.
+  - destruct i; discriminate.
+  - apply ordered_cons_inv in Ho. destruct Ho as [Ho1 Ho2].
+    destruct j as [|j]; [lia|]. cbn in Hb. destruct i as [|i]; cbn in Ha.
+    + inversion Ha; subst. apply Ho2. eapply nth_error_In; eauto.
+    + apply (IH Ho1 i j a b); auto. lia.
+Qed.
+
+Lemma ordered_nosat_disjoint l : ordered l -> Forall (fun e => nosat (e_off e) (e_len e)) l -> disjoint_held l.
+Proof.
+  intros Ho Hn i j a b x Hij Ha Hb [Ha1 Ha2] [Hb1 Hb2].
+  rewrite Forall_forall in Hn.
+  pose proof (Hn a (nth_error_In _ _ Ha)) as Hna. pose proof (Hn b (nth_error_In _ _ Hb)) as Hnb.
+  unfold nosat in *.
+  destruct (Nat.lt_ge_cases i j) as [Hlt|Hge].
+  - pose proof (ordered_nth l Ho i j a b Hlt Ha Hb) as H. unfold before, e_end in H. rewrite r_end_nosat in H; lia.
+  - assert (Hlt : (j < i)%nat) by lia.
+    pose proof (ordered_nth l Ho j i b a Hlt Hb Ha) as H. unfold before, e_end in H. rewrite r_end_nosat in H; lia.
+Qed.
+
+Definition G_safe (c : op) : Prop := op_u64 c /\ op_P nosat c.
+
+(* rl_disjoint: in EVERY reachable state of EVERY interleaving of method calls and wake-ups, made of
+   requests that do not reach past 2^64-1, the held ranges are pairwise disjoint as byte sets and
+   m_index is ordered by the comparator (so std::set's ordering requirement is met). *)
+Lemma rl_disjoint_proof s : reachable G_safe s -> disjoint_held (idx s) /\ ordered (idx s).
+Proof.
+  intros H.
+  destruct (reachable_inv G_safe s (fun c Hc => proj1 Hc) H) as [[Ho _ _] _].
+  destruct (reachable_P nosat G_safe s (fun c Hc => proj2 Hc) H) as [Hn _].
+  split; auto. apply ordered_nosat_disjoint; auto.
+Qed.
+
+(* the ordering half needs no guard at all: with saturating ends the set stays ordered for
+   every sequence of uint64 arguments (zero lengths and saturating ranges included) *)
+Lemma rl_ordered_proof s : reachable op_u64 s -> ordered (idx s) /\ NoDup (map e_id (idx s)).
+Proof.
+  intros H. destruct (reachable_inv op_u64 s (fun c Hc => Hc) H) as [[Ho _ [_ Hn]] _]. auto.
+Qed.
+
+(* ---- scripted runs (what the correspondence check executes) are runs of [step] ------ *)
+Lemma set_ready_eta s : set_ready s (ready s) = s. Proof. destruct s; reflexivity. Qed.
+Lemma set_ready_twice s r r' : set_ready (set_ready s r) r' = set_ready s r'. Proof. reflexivity. Qed.
+
+Lemma attempt_ready_frame s t k o l r :
+  attempt (set_ready s r) t k o l = (set_ready (fst (attempt s t k o l)) r, snd (attempt s t k o l)).
+Proof.
+  unfold attempt, set_ready; cbn. destruct (lb_split o (idx s)) as [pre post].
+  destruct post as [|x post'].
+  - destruct (dup_empty pre o l); reflexivity.
+  - destruct (e_off x <? r_end o l); [reflexivity|]. destruct (dup_empty pre o l); reflexivity.
+Qed.
+
+Lemma wake_ready_frame s t r :
+  wake (set_ready s r) t = (set_ready (fst (wake s t)) r, snd (wake s t)).
+Proof.
+  unfold wake; cbn. destruct (lookup_pend t (pend s)) as [p|]; [|reflexivity].
+  destruct (p_kind p); try reflexivity.
+  change (mkSt (idx s) (nid s) (remove_pend t (pend s)) r) with (set_ready (mkSt (idx s) (nid s) (remove_pend t (pend s)) (ready s)) r).
+  apply attempt_ready_frame.
+Qed.
+
+Lemma attempt_ready s t k o l : ready (fst (attempt s t k o l)) = ready s.
+Proof.
+  unfold attempt. destruct (lb_split o (idx s)) as [pre post].
+  destruct post as [|x post'].
+  - destruct (dup_empty pre o l); reflexivity.
+  - destruct (e_off x <? r_end o l); [reflexivity|]. destruct (dup_empty pre o l); reflexivity.
+Qed.
+
+Lemma wake_ready s t : ready (fst (wake s t)) = ready s.
+Proof.
+  unfold wake. destruct (lookup_pend t (pend s)) as [p|]; [|reflexivity].
+  destruct (p_kind p); try reflexivity. rewrite attempt_ready. reflexivity.
+Qed.
+
+Lemma drain_list_reachable G rs : forall s s' evs, ready s = [] -> reachable G (set_ready s rs) ->
+  drain_list rs s = (s', evs) -> reachable G s' /\ ready s' = [].
+Proof.
+  induction rs as [|t rs IH]; intros s s' evs Hr0 Hr H; cbn in H.
+  - inversion H; subst. rewrite <- Hr0 in Hr. rewrite set_ready_eta in Hr. auto.
+  - destruct (wake s t) as [s1 e1] eqn:E1. destruct (drain_list rs s1) as [s2 e2] eqn:E2.
+    inversion H; subst; clear H.
+    apply (IH s1 s' e2); auto.
+    + pose proof (wake_ready s t) as Hw. rewrite E1 in Hw. cbn in Hw. congruence.
+    + eapply reach_step; [exact Hr|].
+      eapply step_wake with (t := t) (r1 := []) (r2 := rs); [reflexivity|].
+      cbn [app]. rewrite set_ready_twice. rewrite wake_ready_frame. rewrite E1. reflexivity.
+Qed.
+
+Lemma run_op_reachable (G : op -> Prop) s c s' evs : reachable G s -> ready s = [] -> G c ->
+  run_op s c = (s', evs) -> reachable G s' /\ ready s' = [].
+Proof.
+  intros Hr Hr0 Hc H. unfold run_op in H.
+  destruct (exec_op s c) as [s1 e1] eqn:E1. destruct (drain s1) as [s2 e2] eqn:E2. inversion H; subst; clear H.
+  unfold drain in E2. eapply drain_list_reachable; [| |exact E2]; [reflexivity|].
+  change (mkSt (idx s1) (nid s1) (pend s1) []) with (set_ready s1 []). rewrite set_ready_twice, set_ready_eta.
+  eapply reach_step; eauto. eapply step_op; eauto.
+Qed.
+
+Lemma run_ops_reachable (G : op -> Prop) cs : forall s, reachable G s -> ready s = [] -> Forall G cs ->
+  reachable G (fst (run_ops s cs)) /\ ready (fst (run_ops s cs)) = [].
+Proof.
+  induction cs as [|c cs IH]; intros s Hr Hr0 HG; cbn; auto.
+  inversion HG; subst.
+  destruct (run_op s c) as [s1 e1] eqn:E1.
+  destruct (run_op_reachable G s c s1 e1 Hr Hr0 H1 E1) as [Hr1 Hr10].
+  specialize (IH s1 Hr1 Hr10 H2). destruct (run_ops s1 cs) as [s2 r]. exact IH.
+Qed.
+
+Lemma rl_disjoint_ops_proof cs : Forall G_safe cs ->
+  disjoint_held (idx (fst (run_ops init_state cs))) /\ ordered (idx (fst (run_ops init_state cs))).
+Proof.
+  intros H. apply rl_disjoint_proof. apply run_ops_reachable; auto. constructor.
+Qed.
+
+(* ------------------------------------------------------------- retry succeeds ---- *)
+Definition nonempty (o l : Z) : Prop := 0 < l.
+
+(* a try_lock (any of the three entry points) issued when no held range shares a byte with the
+   request inserts it.  Guards: F4 (no saturating range), F3 (no empty range). *)
+Lemma rl_retry_succeeds_proof s t k o l :
+  inv s ->
+  Forall (fun e => nosat (e_off e) (e_len e)) (idx s) -> Forall (fun e => nonempty (e_off e) (e_len e)) (idx s) ->
+  u64 o -> u64 l -> nosat o l -> nonempty o l ->
+  (forall e x, In e (idx s) -> byte_in x e -> o <= x < o + l -> False) ->
+  exists pre post, idx s = pre ++ post /\
+    attempt s t k o l = (mkSt (pre ++ mkE o l (nid s) [] :: post) (nid s + 1) (pend s) (ready s), [EvAcq t k (nid s)]).
+Proof.
+  intros [Ho Hw _] Hns Hne Uo Ul Nsat Nemp Hfree. unfold nosat, nonempty in *.
+  unfold attempt. destruct (lb_split o (idx s)) as [pre post] eqn:E.
+  pose proof (lb_split_app _ _ _ _ E) as Hl.
+  exists pre, post. split; auto.
+  assert (Hre : r_end o l = o + l) by (apply r_end_nosat; auto).
+  assert (Hd : dup_empty pre o l = false).
+  { unfold dup_empty. rewrite Hre. destruct (o + l =? o) eqn:E2; auto. apply Z.eqb_eq in E2. lia. }
+  rewrite Hd. destruct post as [|x post']; auto.
+  destruct (e_off x <? r_end o l) eqn:E2; auto. exfalso.
+  apply Z.ltb_lt in E2. rewrite Hre in E2.
+  pose proof (lb_split_post_head _ _ _ _ _ E) as Hx.
+  assert (Hin : In x (idx s)) by (rewrite Hl; apply in_or_app; right; left; auto).
+  rewrite Forall_forall in Hns, Hne. specialize (Hns x Hin). specialize (Hne x Hin). cbn in Hns, Hne.
+  unfold e_end in Hx. rewrite r_end_nosat in Hx by auto.
+  apply (Hfree x (Z.max o (e_off x)) Hin); unfold byte_in; lia.
+Qed.
+
+(* ------------------------------------------------------------- unlock erases ---- *)
+Lemma unlock_loop_keep o l post : ordered post -> Forall wf_e post ->
+  forall keep wk, unlock_loop o l post = (keep, wk) ->
+  forall y, In y keep -> r_contains o l (e_off y) (e_len y) = false \/ r_end o l <= e_off y.
+Proof.
+  induction post as [|x tl IH]; intros Ho Hw keep wk H y Hy; cbn in H.
+  - inversion H; subst. destruct Hy.
+  - apply ordered_cons_inv in Ho. destruct Ho as [Ho1 Ho2]. inversion Hw as [|? ? Hwx Hwt]; subst.
+    destruct (e_off x <? r_end o l) eqn:E.
+    + destruct (unlock_loop o l tl) as [k' w'] eqn:E2.
+      destruct (r_contains o l (e_off x) (e_len x)) eqn:E3; inversion H; subst.
+      * eapply IH; eauto.
+      * destruct Hy as [<-|Hy]; auto. eapply IH; eauto.
+    + inversion H; subst. apply Z.ltb_ge in E. right.
+      destruct Hy as [<-|Hy]; auto.
+      specialize (Ho2 y Hy). unfold before in Ho2. pose proof (wf_off_le_end x Hwx). lia.
+Qed.
+
+(* unlock(offset,length) leaves no held range that lies inside [offset, offset+length).
+   Guards: F4 (no saturating range) and F3 (no EMPTY held range: an empty range at either end
+   of the unlocked interval is not found by lower_bound / the loop condition). *)
+Lemma rl_unlock_erases_proof s t o l s' evs :
+  inv s ->
+  Forall (fun e => nosat (e_off e) (e_len e)) (idx s) -> Forall (fun e => nonempty (e_off e) (e_len e)) (idx s) ->
+  u64 o -> u64 l -> nosat o l ->
+  unlock_range s t o l = (s', evs) ->
+  forall e, In e (idx s') -> ~ (o <= e_off e /\ e_off e + e_len e <= o + l).
+Proof.
+  intros [Ho Hw _] Hns Hne Uo Ul Nsat H e He [Hc1 Hc2]. unfold nosat, nonempty in *.
+  unfold unlock_range in H. destruct (lb_split o (idx s)) as [pre post] eqn:E.
+  destruct (unlock_loop o l post) as [keep wk] eqn:E2. inversion H; subst; clear H. cbn in He.
+  pose proof (lb_split_app _ _ _ _ E) as Hl. pose proof (lb_split_pre _ _ _ _ E) as Hpre.
+  rewrite Hl in Ho, Hw, Hns, Hne.
+  apply ordered_app_inv in Ho. destruct Ho as (_ & Ho2 & _).
+  apply Forall_app in Hw. destruct Hw as [_ Hw2].
+  rewrite Forall_forall in Hns, Hne, Hpre.
+  apply in_app_or in He. destruct He as [He|He].
+  - specialize (Hpre e He). cbn in Hpre. assert (Hin : In e (pre ++ post)) by (apply in_or_app; auto).
+    specialize (Hns e Hin). specialize (Hne e Hin). cbn in *. unfold e_end in Hpre. rewrite r_end_nosat in Hpre by auto. lia.
+  - assert (Hin : In e (pre ++ post)) by (apply in_or_app; right; eapply unlock_loop_incl; eauto).
+    specialize (Hns e Hin). specialize (Hne e Hin). cbn in *.
+    destruct (unlock_loop_keep o l post Ho2 Hw2 keep wk E2 e He) as [Hk|Hk].
+    + unfold r_contains in Hk. rewrite !r_end_nosat in Hk by auto.
+      apply andb_false_iff in Hk. destruct Hk as [Hk|Hk]; [apply Z.leb_gt in Hk | apply Z.leb_gt in Hk]; lia.
+    + rewrite r_end_nosat in Hk by auto. lia.
+Qed.
+
+(* every node that unlock(offset,length) removes hands all its waiters to the ready set *)
+Lemma unlock_loop_wakes o l post : forall keep wk, unlock_loop o l post = (keep, wk) ->
+  forall y, In y post -> In y keep \/ (forall w, In w (e_wait y) -> In w wk).
+Proof.
+  induction post as [|x tl IH]; intros keep wk H y Hy; cbn in H; [destruct Hy|].
+  destruct (e_off x <? r_end o l).
+  - destruct (unlock_loop o l tl) as [k' w'] eqn:E2.
+    destruct (r_contains o l (e_off x) (e_len x)); inversion H; subst; clear H.
+    + destruct Hy as [<-|Hy].
+      * right. intros w Hw. apply in_or_app; auto.
+      * destruct (IH _ _ eq_refl y Hy) as [H|H]; auto. right. intros w Hw. apply in_or_app; auto.
+    + destruct Hy as [<-|Hy]; [left; left; auto|].
+      destruct (IH _ _ eq_refl y Hy) as [H|H]; auto. left; right; auto.
+  - inversion H; subst. left; auto.
+Qed.
+
+Lemma unlock_range_wakes s t o l s' evs : unlock_range s t o l = (s', evs) ->
+  forall y, In y (idx s) -> In y (idx s') \/ (forall w, In w (e_wait y) -> In w (ready s')).
+Proof.
+  intros H y Hy. unfold unlock_range in H. destruct (lb_split o (idx s)) as [pre post] eqn:E.
+  destruct (unlock_loop o l post) as [keep wk] eqn:E2. inversion H; subst; clear H. cbn.
+  rewrite (lb_split_app _ _ _ _ E) in Hy. apply in_app_or in Hy. destruct Hy as [Hy|Hy].
+  - left. apply in_or_app; auto.
+  - destruct (unlock_loop_wakes _ _ _ _ _ E2 y Hy) as [H|H].
+    + left. apply in_or_app; auto.
+    + right. intros w Hw. apply in_or_app; auto.
+Qed.
+
+Lemma unlock_handle_wakes s t h a x b : find_id h (idx s) = Some (a, x, b) ->
+  idx (fst (unlock_handle s t h)) = a ++ b /\
+  (forall w, In w (e_wait x) -> In w (ready (fst (unlock_handle s t h)))) /\
+  snd (unlock_handle s t h) = [EvRet t 0].
+Proof.
+  intros E. unfold unlock_handle. rewrite E. cbn. repeat split; auto.
+  intros w Hw. unfold wake_all. apply in_or_app; auto.
+Qed.
+
+(* ---------------------------------------------------------------- adjust safe ---- *)
+(* adjust_range either refuses and changes nothing, or replaces the node's range in place, keeps the set
+   ordered, wakes the node's waiters, and the new range shares no byte with any other held range *)
+Lemma rl_adjust_safe_proof s t h o l s' evs :
+  inv s -> Forall (fun e => nosat (e_off e) (e_len e)) (idx s) -> u64 o -> u64 l -> nosat o l ->
+  adjust_range s t (Some h) o l = (s', evs) ->
+  (s' = s /\ (evs = [EvRet t (-1)] \/ evs = [EvStale t])) \/
+  (evs = [EvRet t 0] /\ inv s' /\ exists a x b, idx s = a ++ x :: b /\ e_id x = h /\
+     idx s' = a ++ clear_wait (set_range x o l) :: b /\ ready s' = ready s ++ e_wait x /\
+     (forall e y, In e (a ++ b) -> byte_in y e -> o <= y < o + l -> False)).
+Proof.
+  intros Hinv Hns Uo Ul Nsat H.
+  pose proof (adjust_range_gen_inv true s t (Some h) o l s' evs Hinv Uo Ul H) as Hinv'.
+  unfold adjust_range, adjust_range_gen in H.
+  destruct (find_id h (idx s)) as [[[a x] b]|] eqn:E; [|inversion H; subst; left; auto].
+  destruct (find_id_split _ _ _ _ _ E) as [Hl Hid].
+  match type of H with (if ?c then _ else _) = _ => destruct c end; inversion H; subst; clear H; [left; auto|].
+  right. split; auto. split; auto. exists a, x, b. repeat split; auto.
+  intros e y He [Hy1 Hy2] Hy3. destruct Hinv' as [Ho' _ _]. cbn in Ho'.
+  apply ordered_app_inv in Ho'. destruct Ho' as (_ & Ho2 & Ho3). apply ordered_cons_inv in Ho2. destruct Ho2 as [_ Ho2].
+  rewrite Hl in Hns. rewrite Forall_forall in Hns. unfold nosat in *.
+  apply in_app_or in He. destruct He as [He|He].
+  - specialize (Ho3 e _ He (or_introl eq_refl)). unfold before in Ho3. cbn in Ho3.
+    assert (Hin : In e (a ++ x :: b)) by (apply in_or_app; auto). specialize (Hns e Hin). cbn in Hns.
+    unfold e_end in Ho3. rewrite r_end_nosat in Ho3 by auto. lia.
+  - specialize (Ho2 e He). unfold before, e_end in Ho2. cbn in Ho2. rewrite r_end_nosat in Ho2 by auto. lia.
+Qed.
